@@ -47,7 +47,8 @@ def stages(tier, rng, only=None):
                                                  1, 3), _nt_run)]
     out.append(ac.stage("cycles", PID, lambda: _runs(
         [ac.cyclic_dataset(rng, 3, 5, incomplete=k % 2 == 1) for k in range(100 if tier == "quick" else 1000)]
-        + [ac.two_cycles(rng) for _ in range(12 if tier == "quick" else 100)], 1, 6), _nt_run))
+        + [ac.two_cycles(rng) for _ in range(12 if tier == "quick" else 100)]
+        + [ac.cycle_plus(rng) for _ in range(60 if tier == "quick" else 600)], 1, 6), _nt_run))
     if tier == "thorough":
         out.append(Stage("partitions3x3", "Trace_Part", partrun.run_partitions,
                          lambda: _cases(grids.datasets(3, 3), SCHEMES, False), _nt_part, partrun.init, aux=aux))
